@@ -134,7 +134,7 @@ pub fn deploy_pair_ext(kinds: [bool; 2], decimals: [u8; 2], fees: PoolFee, pair_
     let mut infos = vec![];
     for (i, k) in kinds.iter().enumerate() {
         if *k {
-            let a = deploy_cw20(&mut app, cw20_code, if i == 0 { "TOKA" } else { "TOKB" }, decimals[i]);
+            let a = deploy_cw20(&mut app, cw20_code, if i == 0 { "TOKA" } else { "TOKB" }, decimals[i].min(18));   // (cw20-base refuses more than 18; the pair is told `decimals[i]` all the same)
             infos.push(token(&a));
         } else {
             infos.push(native(if fab && i == 1 { FACTORY_DENOM } else { DENOMS[i] }));
